@@ -13,6 +13,52 @@ use std::sync::{Arc, Mutex};
 
 pub mod scen;
 
+// ---------------------------------------------------------------- block_on with a switching waker
+
+struct L3Waker {
+    thread: shuttle::thread::Thread,
+    notified: std::sync::atomic::AtomicBool,
+}
+impl std::task::Wake for L3Waker {
+    fn wake(self: Arc<Self>) {
+        self.wake_by_ref()
+    }
+    fn wake_by_ref(self: &Arc<Self>) {
+        self.notified.store(true, std::sync::atomic::Ordering::SeqCst);
+        if std::thread::panicking() {
+            return;
+        }
+        // `unpark` is a scheduling point *before* the token is delivered: wake-ups issued
+        // inside a critical section let other threads run in the middle of it, exactly as a
+        // preemption of the waking thread would
+        self.thread.unpark();
+    }
+}
+
+/// Runs a future on the current simulated thread. The future lives in a quarantine cell: after
+/// it is dropped its memory is poisoned and checked for later writes at the end of the run.
+pub fn block_on<F: std::future::Future>(fut: F) -> F::Output {
+    let mut cell = crate::quarantine::QCell::new(fut, "future awaited by a simulated thread");
+    let w = Arc::new(L3Waker { thread: shuttle::thread::current(), notified: std::sync::atomic::AtomicBool::new(false) });
+    let waker = std::task::Waker::from(w.clone());
+    let mut cx = std::task::Context::from_waker(&waker);
+    loop {
+        if let std::task::Poll::Ready(v) = cell.pin().poll(&mut cx) {
+            return v;
+        }
+        while !w.notified.swap(false, std::sync::atomic::Ordering::SeqCst) {
+            shuttle::thread::park();
+        }
+    }
+}
+
+/// End-of-execution C01 oracle: nothing wrote into the memory of a dropped future.
+pub fn check_dropped_futures() {
+    if let Some(msg) = crate::quarantine::check_and_release() {
+        violation("C01", "write-after-drop", msg);
+    }
+}
+
 // ---------------------------------------------------------------- the lock seam
 
 pub struct SimRawMutex {
@@ -99,6 +145,8 @@ pub struct Shared {
     pub steps_total: u64,
     pub preemptions: u64,
     pub run_preemptions: u64,
+    /// order-independent aggregate of (schedule fingerprint × run index) over finished executions
+    pub hash_xor: u64,
     /// fingerprints of the finished executions that had at least one preemption
     pub fps: Vec<u64>,
 }
@@ -118,20 +166,25 @@ pub struct SeededScheduler {
     pos_r: usize,
     started: bool,
     fp: Hasher64,
+    idx_file: Option<std::fs::File>,
+    /// write-ahead log of decisions (`d n`) and draws (`r n`) for crash isolation
+    pub oplog: Option<std::fs::File>,
 }
 
 impl SeededScheduler {
     pub fn generate(def: &'static ThreadScenDef, seed: u64, first_run: u64, end_run: u64, over: Cfg, shared: Arc<Mutex<Shared>>) -> Self {
-        SeededScheduler { shared, def, seed, next_run: first_run, end_run, over, rng: Rng::new(0), stick: 0, replay: None, replay_cfg: Cfg::new(), pos_d: 0, pos_r: 0, started: false, fp: Hasher64::default() }
+        SeededScheduler { shared, def, seed, next_run: first_run, end_run, over, rng: Rng::new(0), stick: 0, replay: None, replay_cfg: Cfg::new(), pos_d: 0, pos_r: 0, started: false, fp: Hasher64::default(), idx_file: None, oplog: None }
     }
     pub fn replay(def: &'static ThreadScenDef, cfg: Cfg, trace: Trace, shared: Arc<Mutex<Shared>>) -> Self {
-        SeededScheduler { shared, def, seed: 0, next_run: 0, end_run: 0, over: Cfg::new(), rng: Rng::new(0), stick: 0, replay: Some(trace), replay_cfg: cfg, pos_d: 0, pos_r: 0, started: false, fp: Hasher64::default() }
+        SeededScheduler { shared, def, seed: 0, next_run: 0, end_run: 0, over: Cfg::new(), rng: Rng::new(0), stick: 0, replay: Some(trace), replay_cfg: cfg, pos_d: 0, pos_r: 0, started: false, fp: Hasher64::default(), idx_file: None, oplog: None }
     }
     fn finish_previous(&mut self) {
         if self.started {
             let mut s = self.shared.lock().unwrap();
             s.finished_runs += 1;
             s.fp = self.fp.get();
+            let (fp, run) = (s.fp, s.run_index);
+            s.hash_xor ^= fp.wrapping_mul(run | 1);
             if s.run_preemptions > 0 {
                 let fp = s.fp;
                 s.fps.push(fp);
@@ -173,6 +226,10 @@ impl Scheduler for SeededScheduler {
         let run = self.next_run;
         self.next_run += 1;
         self.started = true;
+        if let Some(f) = &self.idx_file {
+            use std::os::unix::fs::FileExt;
+            let _ = f.write_at(&run.to_le_bytes(), 0);
+        }
         let (cfg, rng) = draw_run_cfg(self.def, self.seed, run, &self.over);
         self.rng = rng;
         self.stick = cfg_get(&cfg, "stick", 50) as u64;
@@ -186,6 +243,7 @@ impl Scheduler for SeededScheduler {
     }
 
     fn next_task(&mut self, runnable: &[&Task], current: Option<TaskId>, _is_yielding: bool) -> Option<TaskId> {
+        crate::core::heartbeat();
         let mut ids: Vec<usize> = runnable.iter().map(|t| usize::from(t.id())).collect();
         ids.sort_unstable();
         let cur = current.map(usize::from);
@@ -208,6 +266,10 @@ impl Scheduler for SeededScheduler {
             }
         };
         self.fp.add(chosen as u64);
+        if let Some(f) = &mut self.oplog {
+            use std::io::Write;
+            let _ = writeln!(f, "d {}", chosen);
+        }
         let mut s = self.shared.lock().unwrap();
         s.trace.decisions.push(chosen as u32);
         s.steps += 1;
@@ -229,6 +291,10 @@ impl Scheduler for SeededScheduler {
             }
             None => self.rng.next(),
         };
+        if let Some(f) = &mut self.oplog {
+            use std::io::Write;
+            let _ = writeln!(f, "r {}", v);
+        }
         self.shared.lock().unwrap().trace.draws.push(v);
         v
     }
@@ -318,12 +384,15 @@ fn drive(def: &'static ThreadScenDef, sched: SeededScheduler, shared: &Arc<Mutex
     crate::core::QUIET_PANICS.with(|q| q.set(true));
     crate::core::take_first_panic();
     take_violation();
+    crate::quarantine::reset();
     IN_L3.with(|f| f.set(true));
     let res = std::panic::catch_unwind(std::panic::AssertUnwindSafe(|| {
         let runner = shuttle::Runner::new(sched, shuttle_config());
         runner.run(move || {
             let cfg = sh2.lock().unwrap().cfg.clone();
+            crate::quarantine::reset();
             body(&cfg);
+            check_dropped_futures();
         });
     }));
     IN_L3.with(|f| f.set(false));
@@ -355,10 +424,11 @@ pub struct L3Batch {
     pub samples: Vec<serde_json::Value>,
     pub steps: u64,
     pub preemptions: u64,
+    pub hash_xor: u64,
 }
 
 #[allow(clippy::too_many_arguments)]
-pub fn run_batch(def: &'static ThreadScenDef, seed: u64, first_run: u64, runs: u64, gate: &str, threads: usize, over: &Cfg, stop_on_first: bool, max_found: usize, idx_dir: Option<&str>) -> L3Batch {
+pub fn run_batch(def: &'static ThreadScenDef, seed: u64, first_run: u64, runs: u64, gate: &str, threads: usize, over: &Cfg, stop_on_first: bool, max_found: usize, idx_dir: Option<&str>, oplog: Option<&str>) -> L3Batch {
     use std::sync::atomic::{AtomicBool, AtomicU64, Ordering};
     let next = AtomicU64::new(0);
     let stop = AtomicBool::new(false);
@@ -368,7 +438,7 @@ pub fn run_batch(def: &'static ThreadScenDef, seed: u64, first_run: u64, runs: u
         for t in 0..threads.max(1) {
             let (next, stop, merged) = (&next, &stop, &merged);
             sc.spawn(move || {
-                let idx_file = idx_dir.and_then(|d| std::fs::File::create(format!("{}/t{}", d, t)).ok());
+                let idx_path = idx_dir.map(|d| format!("{}/t{}", d, t));
                 let mut out = L3Batch::default();
                 loop {
                     if stop.load(Ordering::Relaxed) {
@@ -380,18 +450,17 @@ pub fn run_batch(def: &'static ThreadScenDef, seed: u64, first_run: u64, runs: u
                     }
                     let mut a = first_run + base;
                     let b = first_run + (base + CHUNK).min(runs);
-                    if let Some(f) = &idx_file {
-                        use std::os::unix::fs::FileExt;
-                        let _ = f.write_at(&a.to_le_bytes(), 0);
-                    }
                     while a < b {
                         let shared = Arc::new(Mutex::new(Shared::default()));
-                        let sched = SeededScheduler::generate(def, seed, a, b, over.clone(), shared.clone());
+                        let mut sched = SeededScheduler::generate(def, seed, a, b, over.clone(), shared.clone());
+                        sched.idx_file = idx_path.as_ref().and_then(|p| std::fs::OpenOptions::new().create(true).write(true).open(p).ok());
+                        sched.oplog = oplog.and_then(|p| std::fs::File::create(p).ok());
                         let fail = drive(def, sched, &shared);
                         let s = shared.lock().unwrap();
                         match fail {
                             None => {
                                 out.runs += b - a;
+                                out.hash_xor ^= s.hash_xor;
                                 out.steps += s.steps_total + s.steps;
                                 out.preemptions += s.preemptions;
                                 out.nontrivial.extend(s.fps.iter().copied());
@@ -403,6 +472,7 @@ pub fn run_batch(def: &'static ThreadScenDef, seed: u64, first_run: u64, runs: u
                             Some(f) => {
                                 let run = s.run_index;
                                 out.runs += run + 1 - a;
+                                out.hash_xor ^= s.hash_xor;
                                 out.nontrivial.extend(s.fps.iter().copied());
                                 out.steps += s.steps_total + s.steps;
                                 out.preemptions += s.preemptions;
@@ -422,6 +492,7 @@ pub fn run_batch(def: &'static ThreadScenDef, seed: u64, first_run: u64, runs: u
                         }
                     }
                 }
+                crate::core::heartbeat_done();
                 let mut m = merged.lock().unwrap();
                 m.runs += out.runs;
                 m.nontrivial.extend(out.nontrivial);
@@ -432,6 +503,7 @@ pub fn run_batch(def: &'static ThreadScenDef, seed: u64, first_run: u64, runs: u
                 m.samples.extend(out.samples);
                 m.steps += out.steps;
                 m.preemptions += out.preemptions;
+                m.hash_xor ^= out.hash_xor;
             });
         }
     });
